@@ -151,6 +151,20 @@ def seg_ops(ck, rnd, matrices, quick):
                                 what='transform(%r, %s).point(%r) = %r, M(point) = %r' % (seg, Mx, t, new.point(t), exp), case={'seg': repr(seg), 'M': Mx},
                                 expected=repr(exp), observed=repr(new.point(t)), driver='transform')
                     break
+        # the matrix given with an integer dtype (a quarter turn, a mirror, a shear written without decimal points) - the segments here have non-integer
+        # points on them: nothing may be truncated
+        halves = type(seg)(*[w + (0.5 + 0.25j) for w in seg.bpoints()]) if isbez else seg
+        for Mi in ([0, 1, -1, 0, 0, 0], [-1, 0, 0, 1, 3, 0], [1, 0, 2, 1, 0, -1], [2, 0, 0, 2, 1, 1]):
+            ck.case(fp=('transform-int-dtype', si, tuple(Mi)), nontrivial=True)
+            Mint = np.array([[Mi[0], Mi[2], Mi[4]], [Mi[1], Mi[3], Mi[5]], [0, 0, 1]])        # dtype int64
+            try:
+                new = sp.path.transform(halves, Mint)
+                okm = all(abs(new.point(t) - app(Mi, halves.point(t))) <= (1e-12 if isbez else 1e-6) * 60 for t in TS)
+            except Exception as e:      # noqa
+                okm, new = False, e
+            if not okm:
+                ck.disagree(key='transform/%s/integer-dtype-matrix' % name, site='svgpathtools/path.py:transform', what='transform(%r, integer matrix %s) = %r' % (halves, Mi, new),
+                            case={'seg': repr(halves), 'M': Mi}, expected='M applied to the points', observed=repr(new), driver='transform')
         # transform by every model matrix
         for mi, c in enumerate(matrices):
             if not isbez and quick and mi % 3:
@@ -269,6 +283,26 @@ def path_ops(ck, rnd, quick):
                                     case={'joined': joined, 'op': what}, expected=len(path), observed=len(new), driver='joints')
                         continue
                     joints_kept(ck, joined, path, new, what)
+    # paths with point-like members (a repeated vertex, a zero-length closing line, a point-like cubic) and with curves of lower true degree (a degree-elevated
+    # line / quadratic): every operation returns a path, members keep their kind, points commute
+    odd = [sp.Path(sp.Line(0j, 3 + 0j), sp.Line(3 + 0j, 3 + 0j), sp.Line(3 + 0j, 3 + 4j), sp.Line(3 + 4j, 0j), sp.Line(0j, 0j)),
+           sp.Path(sp.CubicBezier(1 + 1j, 1 + 1j, 1 + 1j, 1 + 1j), sp.QuadraticBezier(1 + 1j, 3 + 5j, 6 + 1j)),
+           sp.Path(sp.CubicBezier(0j, 1 + 1j, 2 + 2j, 3 + 3j), sp.CubicBezier(3 + 3j, 5 + 5j, 7 + 3j, 9 - 1j), sp.QuadraticBezier(9 - 1j, 10 + 0j, 11 + 1j))]
+    maps = {'translated(0.1+0.7j)': lambda z: z + (0.1 + 0.7j), 'rotated(90, origin=1+1j)': lambda z: 1j * (z - (1 + 1j)) + (1 + 1j), 'scaled(1/3)': lambda z: z / 3.0,
+            'scaled(-0.7, origin=2j)': lambda z: -0.7 * (z - 2j) + 2j}
+    for pi_, path in enumerate(odd):
+        for what, f in ops + bez_only:
+            ck.case(fp=('odd-path', pi_, what), nontrivial=True)
+            try:
+                new = f(path)
+                ok = len(new) == len(path) and all(type(a_) is type(b_) for a_, b_ in zip(new, path))
+                if ok and what in maps:
+                    ok = all(abs(a_.point(t) - maps[what](b_.point(t))) <= 1e-9 * 12 for a_, b_ in zip(new, path) for t in (0, 0.3, 1))
+            except Exception as e:      # noqa
+                ok, new = False, e
+            if not ok:
+                ck.disagree(key='path-op/point-like-or-degree-elevated-members', site='svgpathtools/path.py:scale / rotate / translate / transform',
+                            what='%s of %r = %r' % (what, path, new), case={'path': repr(path), 'op': what}, expected='the same kinds of segments, mapped', observed=repr(new), driver='joints')
     ck.sample('joint-pattern', {'joined': [True, False, True], 'ops': [o[0] for o in ops]})
 
 
